@@ -307,10 +307,16 @@ package graphql
 //@   loop 1 invariant (selections == nil || fresh(selections)) && (fragments == nil || fresh(fragments))
 
 // ---- C19 consumers: a selection or fragment contributes only after ShouldIncludeNode approved its own directives.
+// (selections are merged by alias after the walk and the merged selection keeps at most the first occurrence's
+// directives, so an occurrence may only enter a group after its own directives approved it)
 //@ func Flatten$1
 //@   ghost approved *Fragment
-//@   call ShouldIncludeNode assert arg0 == fragment.Directives
-//@   call ShouldIncludeNode ghost approved = ite(ret0 && ret1 == nil, fragment, nil)
+//@   ghost approvedSel *Selection
+//@   call ShouldIncludeNode#1 assert arg0 == selection.Directives
+//@   call ShouldIncludeNode#1 ghost approvedSel = ite(ret0 && ret1 == nil, selection, nil)
+//@   call mapupdate#1 assert approvedSel == selection && arg1 == selection.Alias
+//@   call ShouldIncludeNode#2 assert arg0 == fragment.Directives
+//@   call ShouldIncludeNode#2 ghost approved = ite(ret0 && ret1 == nil, fragment, nil)
 //@   call dynamic assert approved == fragment && arg0 == fragment.SelectionSet
 
 // (also C01: the k-th non-nil source, its result map and its origin destination stay aligned, so every unit handed on
